@@ -127,6 +127,12 @@ Definition all_entries (c : conn) : list entry :=
 Definition holds (c : conn) (i o : N) : bool :=
   existsb (fun e => same_blk i o e && e_valid e) (all_entries c).
 
+(* ANY entry (valid or cancelled) for the block in one of the four buckets. The code has no explicit test for it; it
+   is what keeps RequestList::downloading (first same-piece entry wins) sound: a new request must never queue behind a
+   stale cancelled entry for the same block (that is what the reverted repair 2fa3dae broke). *)
+Definition listed_any (c : conn) (i o : N) : bool :=
+  existsb (same_blk i o) (c_q c ++ c_u c ++ c_s c ++ c_c c).
+
 (* contribution of one connection to Block::m_notStalled *)
 Definition not_stalled_in (c : conn) (i o : N) : N :=
   N.of_nat (length (filter (fun e => same_blk i o e && e_valid e && negb (e_stalled e)) (all_entries c))).
@@ -350,6 +356,7 @@ Definition accept (s : state) (ev : event) : option state :=
              && negb (getb (s_completed s) i)
              && negb (mem_blk i o (s_fin s))                         (* !is_finished *)
              && negb (holds c i o)                                   (* Block::insert refusal *)
+             && negb (listed_any c i o)                              (* never behind a stale entry for the same block *)
              && (getb (c_have c) i || match c_aff c with Some a => a =? i | None => false end)
              && (listed || (getb (s_wanted s) i && getb (c_have c) i))   (* ChunkSelector::find for a new chunk *)
              && (if s_aggr s then not_stalled s i o <? overlapped else not_stalled s i o =? 0)
@@ -489,7 +496,7 @@ Definition interested_in_active (s : state) (c : conn) : bool := existsb (fun i 
 Definition blk_ok (s : state) (c : conn) (i o : N) : bool :=
   let l := N.min block_size (piece_size s i - o) in
   valid_block s i o l
-  && negb (getb (s_completed s) i) && negb (mem_blk i o (s_fin s)) && negb (holds c i o)
+  && negb (getb (s_completed s) i) && negb (mem_blk i o (s_fin s)) && negb (holds c i o) && negb (listed_any c i o)
   && (getb (c_have c) i || match c_aff c with Some a => a =? i | None => false end)
   && (memN i (s_active s) || (getb (s_wanted s) i && getb (c_have c) i))
   && (if s_aggr s then not_stalled s i o <? overlapped else not_stalled s i o =? 0).
